@@ -34,7 +34,10 @@ Inductive cls_arg :=
 | CThisClass     (* `.remap_with_class_name(remapper, this_class)`: the caller's own argument *)
 | CSelfName.     (* `.remap_with_class_name(remapper, &self.name)`: ClassFile's original name *)
 
-Inductive decl := DField | DMethod.
+Inductive decl :=
+| DField | DMethod
+| DRecord.   (* a record component: the field of its name — the name goes through FieldName (an error when it is no
+                field name) and comes back as a RecordName *)
 
 (* how a position is rebuilt *)
 Inductive meth :=
